@@ -23,7 +23,7 @@ func init() {
 		Assumptions: []string{"Getw/Join widths restricted to {1,2,4,8,16,32,64} and Slice to 0<=from<=to<=64*len (the stated domain)",
 			"nothing asserted about capacity of returned slices"},
 		Flavours: releaseAnd386,
-		Required: []string{"join/w=1", "join/w=2", "join/w=4", "join/w=8", "join/w=16", "join/w=32", "join/w=64", "join/empty", "join/long-list",
+		Required: []string{"arguments-in-read-only-memory", "join/w=1", "join/w=2", "join/w=4", "join/w=8", "join/w=16", "join/w=32", "join/w=64", "join/empty", "join/long-list",
 			"slice/empty", "slice/aligned", "slice/unaligned", "slice/multiword", "slice/to-end", "slice/sub-word", "slice/bitmap>=2^31-bits"},
 		Families: func(c *mon.Config) []mon.Family {
 			reps := c.Pick(6, 1000)
@@ -69,7 +69,14 @@ func c14Join(w *mon.W, idx int) {
 	}
 	in := cloneWords(vals)
 	guardV := func() bool { return true }
-	if vals != nil {
+	roVals := false
+	if vals != nil && idx%4 == 2 {
+		var rel func()
+		if vals, rel, roVals = roOneW(w, vals); roVals {
+			defer rel()
+		}
+	}
+	if vals != nil && !roVals {
 		vals, guardV = argW(w, vals)
 	}
 	w.Op, w.A, w.B = "Join", int64(width), int64(n)
@@ -111,6 +118,12 @@ func c14Join(w *mon.W, idx int) {
 	w.Op = "Getw"
 	qGot, gGot := dirtyW(got) // the bitmap as a view into a larger array
 	hGot := gen.HashWords(qGot)
+	if idx%4 == 3 && len(got) > 0 { // or in memory that cannot be written
+		if v, rel, ok := roOneW(w, got); ok {
+			qGot, gGot, hGot = v, func() bool { return true }, gen.HashWords(v)
+			defer rel()
+		}
+	}
 	defer func() {
 		if !gGot() || gen.HashWords(qGot) != hGot {
 			w.Fail("Getw/wrote-to-or-outside-len-of-argument", mon.D{"width": width, "n": n})
@@ -219,6 +232,12 @@ func c14SliceAll(w *mon.W, idx int) {
 			w.Fail("Slice/wrote-outside-len-of-argument", mon.D{"nwords": nw})
 		}
 	}()
+	if idx%3 == 1 {
+		if v, rel, ok := roOneW(w, cloneWords(words)); ok {
+			words = v
+			defer rel()
+		}
+	}
 	orig := cloneWords(words)
 	total := 64 * nw
 	var ev int64
@@ -254,6 +273,12 @@ func c14SliceZoo(w *mon.W, idx int) {
 	r := w.Rng
 	nw := r.Range(4, 40)
 	words := gen.ZooBitmap(r, nw)
+	if idx%3 == 1 {
+		if v, rel, ok := roOneW(w, words); ok {
+			words = v
+			defer rel()
+		}
+	}
 	orig := cloneWords(words)
 	total := 64 * nw
 	pick := func() int {
